@@ -4,6 +4,7 @@ C15 — Operators follow Sass precedence and associativity.
 import RsassModel.Expr.Prec
 import RsassModel.Expr.Lemmas
 import RsassModel.Expr.LemmasL
+import RsassModel.Expr.LemmasWF
 namespace C15
 open Expr
 
@@ -172,5 +173,74 @@ theorem applyOp_deferred_partial (q : Quirks) (o : BOp) (a b : Int) (ho : o ≠ 
     applyOp { q with undefDeferred := true, undefKept := true } o (.ok (.num a)) (.ok (.num b)) =
     applyOp { q with undefDeferred := false, undefKept := false } o (.ok (.num a)) (.ok (.num b)) := by
   cases o <;> simp_all [applyOp, modOp, valEq]
+
+
+/-! ### final proof round: agreement on all well-formed token lists -/
+
+/-- Both parsers read back EVERY well-formed token list — operands may carry any number of
+redundant parentheses (`Expr.WF`: atoms, unary operators on operands of level 6, anything
+in parentheses is an operand of level 6, `a op b` with the left operand of level ≥ `lvl op`
+and the right one of level > `lvl op`). -/
+theorem parse_wf {e : Ex} {ts : List Tok} {p : Nat} (h : WF e ts p) :
+    parseRsass spec ts = some e ∧ parseSass ts = some e :=
+  ⟨parseRsass_of_lt (lt_of_wf h) h.le6, parseSass_of_st (st_of_wf h)⟩
+
+/-- AGREEMENT of the layered nom-style parser (parser flags off = the code since 5057098) and
+the Sass precedence-climbing parser on every well-formed token list, not only minimal prints.
+NOT PROVED (kept visible): `∀ ts, parseRsass spec ts = parseSass ts` for ill-formed lists
+(both are expected to return `none`); missing: (1) fuel sufficiency of the two fixed fuels on
+arbitrary input (a consumed-length argument), (2) the interleaving lemma `sClimb p a r =
+foldLoop 5 ∘ … ∘ foldLoop p` including the backtracking case where a right operand fails and
+the loop of a looser level retries the same operator. -/
+theorem parseRsass_eq_parseSass_wf {e : Ex} {ts : List Tok} {p : Nat} (h : WF e ts p) :
+    parseRsass spec ts = parseSass ts := by
+  rw [(parse_wf h).1, (parse_wf h).2]
+
+/-- the well-formed lists contain every minimal print … -/
+theorem wf_printMin : ∀ e : Ex, WF e (printMin e) (prec e)
+  | .num n => WF.num n
+  | .bool true => WF.tt
+  | .bool false => WF.ff
+  | .neg e => by
+    have ih := wf_printMin e
+    have h6 := prec_le e
+    show WF (.neg e) (Tok.neg :: wrap (decide (prec e < 6)) (printMin e)) 6
+    by_cases h : prec e < 6
+    · exact WF.neg (by simpa [h, wrap] using WF.paren ih)
+    · have h' : prec e = 6 := by omega
+      rw [h'] at ih
+      exact WF.neg (by simpa [h, wrap] using ih)
+  | .not e => by
+    have ih := wf_printMin e
+    have h6 := prec_le e
+    show WF (.not e) (Tok.knot :: wrap (decide (prec e < 6)) (printMin e)) 6
+    by_cases h : prec e < 6
+    · exact WF.not (by simpa [h, wrap] using WF.paren ih)
+    · have h' : prec e = 6 := by omega
+      rw [h'] at ih
+      exact WF.not (by simpa [h, wrap] using ih)
+  | .bin o a b => by
+    have iha := wf_printMin a
+    have ihb := wf_printMin b
+    have ho := lvl_le5 o
+    simp only [printMin, prec, List.append_assoc, List.singleton_append]
+    have hA : ∃ pa, lvl o ≤ pa ∧ WF a (wrap (decide (prec a < lvl o)) (printMin a)) pa := by
+      by_cases h : prec a < lvl o
+      · exact ⟨6, by omega, by simpa [h, wrap] using WF.paren iha⟩
+      · exact ⟨prec a, by omega, by simpa [h, wrap] using iha⟩
+    have hB : ∃ pb, lvl o + 1 ≤ pb ∧ WF b (wrap (decide (prec b < lvl o + 1)) (printMin b)) pb := by
+      by_cases h : prec b < lvl o + 1
+      · exact ⟨6, by omega, by simpa [h, wrap] using WF.paren ihb⟩
+      · exact ⟨prec b, by omega, by simpa [h, wrap] using ihb⟩
+    obtain ⟨pa, hpa, wa⟩ := hA
+    obtain ⟨pb, hpb, wb⟩ := hB
+    exact WF.bin wa wb hpa hpb
+
+/-- … and lists with redundant parentheses: `((2)) + (3 * 7)` -/
+example : WF (.bin .add (.num 2) (.bin .mul (.num 3) (.num 7)))
+    ([.lp, .lp, .num 2, .rp, .rp] ++ Tok.bop .add :: [.lp, .num 3, .bop .mul, .num 7, .rp]) 4 :=
+  WF.bin (pa := 6) (pb := 6) (WF.paren (WF.paren (WF.num 2)))
+    (WF.paren (WF.bin (pa := 6) (pb := 6) (WF.num 3) (WF.num 7) (by decide) (by decide)))
+    (by decide) (by decide)
 
 end C15
